@@ -496,3 +496,57 @@ func D_C03_misc() string {
 		zzSigOf("const map<string, list<i32>> m = {'a': [1, 2], \"b\": []}\nconst double d = -1.5e-3\n")
 }
 func D_C03_unicode() string { return zzSigOf("const string s = \"héllo→\" // ünï\nstruct S { 1: string f = 'ß' }\n") }
+
+// ---------------------------------------------------------------------------------------------
+// 6. double constants in every spelling (digits enumerated through the solver)
+
+func zzPow10(e int) float64 {
+	r := 1.0
+	for i := 0; i < e; i++ {
+		r *= 10
+	}
+	for i := 0; i > e; i-- {
+		r /= 10
+	}
+	return r
+}
+
+// H_C03_double: form 0: A.B  1: AeC  2: A.BeC  3: -A.B  4: AE+C  5: Ae-C  6: .B  7: +A.BE-C
+func H_C03_double(form int) {
+	a, b, c := zzrt.Choose("a", 10), zzrt.Choose("b", 10), zzrt.Choose("c", 4)
+	da, db, dc := string([]byte{'0' + byte(a)}), string([]byte{'0' + byte(b)}), string([]byte{'0' + byte(c)})
+	var txt string
+	var want float64
+	ab := float64(a) + float64(b)/10
+	switch form {
+	case 0:
+		txt, want = da+"."+db, ab
+	case 1:
+		txt, want = da+"e"+dc, float64(a)*zzPow10(c)
+	case 2:
+		txt, want = da+"."+db+"e"+dc, ab*zzPow10(c)
+	case 3:
+		txt, want = "-"+da+"."+db, -ab
+	case 4:
+		txt, want = da+"E+"+dc, float64(a)*zzPow10(c)
+	case 5:
+		txt, want = da+"e-"+dc, float64(a)*zzPow10(-c)
+	case 6:
+		txt, want = "."+db, float64(b)/10
+	default:
+		txt, want = "+"+da+"."+db+"E-"+dc, ab*zzPow10(-c)
+	}
+	ast, err := ParseString("a.thrift", "const double d = "+txt+"\nstruct S { 1: double f = "+txt+" }\n")
+	zzrt.Assert(err == nil, "double constant parses")
+	v := ast.Constants[0].Value
+	zzrt.Assert(v.Type == ConstType_ConstDouble && v.TypedValue.Double != nil, "is a double constant")
+	got := *v.TypedValue.Double
+	diff := got - want
+	if diff < 0 {
+		diff = -diff
+	}
+	zzrt.Assert(diff <= 1e-9*(1+want*want), "double constant has the written value")
+	got2 := *ast.Structs[0].Fields[0].Default.TypedValue.Double
+	zzrt.Assert(got2 == got, "default value agrees")
+	zzrt.Cover("end")
+}
